@@ -109,7 +109,7 @@ Theorem rl_step_spec s o : snd (step s o) <> Oom ->
   logical (fst (step s o)) = spec_step (logical s) o.
 Proof.
   unfold step. destruct (op_ok o); cbn [negb]; [|intros H; contradiction H; reflexivity].
-  destruct o as [p rr|p|sy p rr|p]; cbn [spec_step].
+  destruct o as [p rr|p|sy p rr|p|]; cbn [spec_step]; [| | | |reflexivity].
   - unfold add_dir. destruct (split_last p) as [[q nm]|]; [|reflexivity].
     change (LDir nm rr []) with (erase (new_dir nm rr None)).
     destruct (relocates p).
@@ -149,7 +149,7 @@ Qed.
 Theorem rl_step_refused s o : snd (step s o) <> Acc -> fst (step s o) = s.
 Proof.
   unfold step. destruct (op_ok o); cbn [negb]; [|reflexivity].
-  destruct o as [p rr|p|sy p rr|p].
+  destruct o as [p rr|p|sy p rr|p|]; [| | | |intros H; contradiction H; reflexivity].
   - unfold add_dir. destruct (split_last p) as [[q nm]|]; [|reflexivity].
     destruct (relocates p).
     + destruct (fresh_name _ _); [|reflexivity]. destruct (add_node _ _ _ _); [|reflexivity].
